@@ -143,9 +143,14 @@ class PyInterp:
         comps = []
         for e, n in zip(elts, arr.shape):
             if isinstance(e, ast.Slice):
-                lo = None if e.lower is None else self.concrete(self.ev(e.lower, pc), 'slice bound')
-                hi = None if e.upper is None else self.concrete(self.ev(e.upper, pc), 'slice bound')
-                st = None if e.step is None else self.concrete(self.ev(e.step, pc), 'slice step')
+                try:
+                    lo = None if e.lower is None else self.concrete(self.ev(e.lower, pc), 'slice bound')
+                    hi = None if e.upper is None else self.concrete(self.ev(e.upper, pc), 'slice bound')
+                    st = None if e.step is None else self.concrete(self.ev(e.step, pc), 'slice step')
+                except NotEncoded:
+                    if z3.is_true(z3.simplify(z3.Or(z3.Not(pc), self.raises))):
+                        return None       # evaluating the bound already raised (e.g. IndexError) on this path
+                    raise
                 if st == 0:
                     self.raise_if(pc, 'ValueError: slice step cannot be zero')
                     return None
